@@ -821,6 +821,61 @@ class NP:
         af, sh = a.fn, a.shape
         return STensor(shape, lambda *i: af(*[x if r == 1 else binop('%', x, d) for x, d, r in zip(i, sh, reps)]), a.dtype)
 
+    def f_shape(self, interp, line, a):
+        return tuple(as_tensor(a).shape)
+
+    def f_dot(self, interp, line, a, b):
+        """np.dot for (..., k) . (k, m) with concrete small k (contraction over the last / first axis)."""
+        A, B = as_tensor(a), as_tensor(b)
+        k = A.shape[-1]
+        if is_sym(k) or B.ndim != 2:
+            raise Unsupported('np.dot form')
+        interp.ctx.use('numpy.dot(A, B)[..., m] = sum_k A[..., k] B[k, m]')
+        Af, Bf = A.fn, B.fn
+
+        def fn(*idx):
+            *lead, m = idx
+            tot = None
+            for q in range(k):
+                term = binop('*', Af(*lead, q), Bf(q, m))
+                tot = term if tot is None else binop('+', tot, term)
+            return tot
+        return STensor(tuple(A.shape[:-1]) + (B.shape[1],), fn, V.dtype_join(A.dtype, B.dtype))
+
+    def f_einsum(self, interp, line, spec, *ops):
+        ts = [as_tensor(o) for o in ops]
+        if spec == 'ij,ji->i':
+            A, B = ts
+            k = A.shape[1]
+            if is_sym(k):
+                raise Unsupported('einsum ij,ji->i with symbolic contraction length')
+            interp.ctx.use("numpy.einsum('ij,ji->i', A, B)[i] = sum_j A[i,j] B[j,i]")
+            Af, Bf = A.fn, B.fn
+
+            def fn(i):
+                tot = None
+                for j in range(k):
+                    term = binop('*', Af(i, j), Bf(j, i))
+                    tot = term if tot is None else binop('+', tot, term)
+                return tot
+            return STensor((A.shape[0],), fn, 'real')
+        if spec == 'tbi,ijk->tbkj':
+            A, B = ts
+            if is_sym(A.shape[2]):
+                raise Unsupported('einsum contraction length')
+            n = A.shape[2]
+            interp.ctx.use("numpy.einsum('tbi,ijk->tbkj', V, S)[t,b,k,j] = sum_i V[t,b,i] S[i,j,k]")
+            Af, Bf = A.fn, B.fn
+
+            def fn2(t, b, k, j):
+                tot = None
+                for i in range(n):
+                    term = binop('*', Af(t, b, i), Bf(i, j, k))
+                    tot = term if tot is None else binop('+', tot, term)
+                return tot
+            return STensor((A.shape[0], A.shape[1], B.shape[2], B.shape[1]), fn2, 'real')
+        raise Unsupported(f'einsum {spec!r}')
+
     def f_fliplr(self, interp, line, a):
         a = as_tensor(a)
         n = a.shape[1]
